@@ -94,6 +94,15 @@ def body(ctx):
         fam.append(dict(seed=ctx.seed + 900 + j, maxdata=4096, rid='plus', frag='whole', tick=0.05, ambient=False,
                         ops=[dict(api=('shell', 'exec_out')[j % 2], decode=False, cmd='slow%d' % j, chunks=[b'a'.hex(), b'b'.hex()][:1 + j % 2], timeout_s=T, read_timeout_s=10.0),
                              dict(api='shell', decode=False, cmd='after', chunks=[b'ok'.hex()])]))
+    # a device that hands the same remote id to one stream after the other (legal once the earlier stream is closed): every packet of a
+    # later stream still carries that stream's own local id (seeded change C04-w10-c04-m2: an OKAY remembered per remote id)
+    for rid_ in (5, 1, 2 ** 32 - 1):
+        fam.append(dict(seed=ctx.seed + 950 + len(fam), maxdata=4096, rid=rid_, frag='whole',
+                        ops=[dict(api='shell', decode=False, cmd='one', chunks=[b'a'.hex(), b'b'.hex()]),
+                             dict(api='exec_out', decode=False, cmd='two', chunks=[b'c'.hex()]),
+                             dict(api='stat', path='/f', st=[0o100644, 3, 4]),
+                             dict(api='streaming_shell', decode=False, cmd='three', chunks=[b'd'.hex(), b'e'.hex(), b'f'.hex()]),
+                             dict(api='shell', decode=False, cmd='four', chunks=[b'g'.hex()])]))
     specs = fam + specs
     corpus = scen.run_corpus(specs)
     traces = [c[3] for c in corpus]
